@@ -81,9 +81,13 @@ class Program:
         values = values if values is not None else self.process_noise
         return {st[c]: _as_user_number(values[c]) for c in self.control}
 
-    def sympy_sensor_noise(self, values=None):
+    def sympy_sensor_noise(self, values=None, reverse=False):
+        """reverse: declare the sensors and readings of the noise map in the opposite order (binding is by key)."""
         values = values if values is not None else self.sensor_noise
-        return {k: {r: _as_user_number(values[k][r]) for r in self.sensors[k]} for k in self.sensors}
+        ks = list(self.sensors)
+        if reverse:
+            ks = ks[::-1]
+        return {k: {r: _as_user_number(values[k][r]) for r in (list(self.sensors[k])[::-1] if reverse else list(self.sensors[k]))} for k in ks}
 
     def sympy_calibration_map(self, values=None):
         st = self.symtab()
